@@ -604,7 +604,7 @@ func ruleC15DecimalText(c *Ctx) {
 				}
 				floats[kind] = true
 			default:
-				if !textOf(r, tf.Params[0].Name()) {
+				if !textOf(r, tf.Params[0].Name()) && !exactPlainText(r, kind, tf.Params[0].Name()) {
 					why = append(why, "a non-float value is rendered by "+termStr(r))
 				}
 			}
@@ -797,4 +797,38 @@ func (c *Ctx) decideCompareFormB(cmp *ssa.Function) {
 	c.Check(len(whyTri) == 0 && nNum > 0, "c15.trichotomy", key, c.P.Pos(cmp.Pos()), fmt.Sprintf("%d numeric paths: sign of the two converted values", nNum), strings.Join(firstN(uniq(whyTri), 3), "; "))
 	c.Check(len(whyExact) == 0 && nNum > 0, "c15.exact-domain", key, c.P.Pos(cmp.Pos()), "both operands converted exactly into one type", strings.Join(firstN(uniq(whyExact), 4), "; "))
 	c.Check(len(whyDisp) == 0, "c15.symmetric-dispatch", key, c.P.Pos(cmp.Pos()), fmt.Sprintf("%d type pairs dispatched, operands in order; text(a), text(b) otherwise", len(pairs)), strings.Join(firstN(uniq(whyDisp), 3), "; "))
+}
+
+// exactPlainText: r is the %v text of the value asserted to the built-in type `kind`, written without fmt: the string
+// itself, strconv.Itoa of an int, strconv.FormatInt(int64(v), 10) of a signed integer, strconv.FormatUint(uint64(v), 10)
+// of an unsigned one. (A named type has its own assertion arm and does not reach these.)
+func exactPlainText(r *Term, kind, param string) bool {
+	asserted := func(t *Term) bool {
+		for t != nil && t.Op == "ext" && len(t.Args) > 0 {
+			t = t.Args[0]
+		}
+		return t != nil && (t.Op == "assertok" || t.Op == "assert") && t.Name == kind && len(t.Args) == 1 && t.Args[0].Op == "param" && t.Args[0].Name == param
+	}
+	widened := func(t *Term, to string) bool {
+		if t != nil && t.Op == "conv" && t.Name == to && len(t.Args) == 1 {
+			return asserted(t.Args[0])
+		}
+		return kind == to && asserted(t)
+	}
+	switch kind {
+	case "string":
+		return asserted(r)
+	case "int":
+		if a, ok := callArgs(r, "strconv.Itoa"); ok && len(a) == 1 && asserted(a[0]) {
+			return true
+		}
+		fallthrough
+	case "int8", "int16", "int32", "int64":
+		a, ok := callArgs(r, "strconv.FormatInt")
+		return ok && len(a) == 2 && a[1].String() == "c:10" && widened(a[0], "int64")
+	case "uint", "uint8", "uint16", "uint32", "uint64", "byte":
+		a, ok := callArgs(r, "strconv.FormatUint")
+		return ok && len(a) == 2 && a[1].String() == "c:10" && widened(a[0], "uint64")
+	}
+	return false
 }
